@@ -28,7 +28,8 @@ EXPLANATION = (
     'unset, annotated, keyword-only unset) all carry tag sets assigned by a solver-enumerated affine pattern over '
     'the hierarchy T0 <- T1 <- T2 and U; child targets, query tag and pattern are symbolic, API and transformation '
     'are cube parameters, the assigned value is an unbounded symbolic int; the oracle is an independent walker '
-    'that reads the documented dunder attributes')
+    'that reads the documented dunder attributes; auto_config.with_tags in six call forms (one tag, several, a collection, '
+    'a collection followed by further tags) is checked against the tag sets it is given')
 ASSUMPTIONS = ['stubs: building._format_arg, Buildable.__repr__ constant',
                'JSON transformation: the text stage (json.dumps/json.loads) is replaced by fvlib.jsonstub.jsonify '
                '(validated against the real text stage in every smoke run)',
@@ -438,6 +439,70 @@ def _json_stub_ok():
   return jsonstub.validate(root)
 
 
+
+# ----------------------------------------------------------------------------- with_tags inside auto_config (C14-m7)
+from fiddle.experimental import auto_config as _ac  # pylint: disable=g-import-not-at-top
+from fiddle._src.experimental import with_tags as _wt  # pylint: disable=g-import-not-at-top
+
+
+@_ac.auto_config
+def _wt0(v):
+  return fam.g1(x=_wt.with_tags(v, T1), y=1)
+
+
+@_ac.auto_config
+def _wt1(v):
+  return fam.g1(x=_wt.with_tags(v, T1, U), y=1)
+
+
+@_ac.auto_config
+def _wt2(v):
+  return fam.g1(x=_wt.with_tags(v, [T1, U]), y=1)
+
+
+@_ac.auto_config
+def _wt3(v):
+  return fam.g1(x=_wt.with_tags(v, [T1], U), y=1)
+
+
+@_ac.auto_config
+def _wt4(v):
+  return fam.g1(x=_wt.with_tags(v, (T0, T1), U, T2), y=1)
+
+
+@_ac.auto_config
+def _wt5(v):
+  return fam.g1(x=_wt.with_tags(v, (T0,), T2), y=_wt.with_tags(v + 1, U))
+
+
+_WT = [(_wt0, {T1}, set()), (_wt1, {T1, U}, set()), (_wt2, {T1, U}, set()), (_wt3, {T1, U}, set()),
+       (_wt4, {T0, T1, U, T2}, set()), (_wt5, {T0, T2}, {U})]
+
+
+def c14_with_tags(form: int, q: int, v: int) -> bool:
+  """
+  auto_config.with_tags(value, tags, *more_tags) attaches every tag it is given - one tag, several positional tags, a
+  collection, or a collection followed by further tags - and leaves the function's own result alone.
+  require: 0 <= form <= 5 and 0 <= q <= 3
+  """
+  form, q = _concs(form, 0, 5), _concs(q, 0, 3)
+  fn, xt, yt = _WT[form]
+  cfg = fn.as_buildable(v)
+  note('c14w', form, q)
+  if fdl.get_tags(cfg, 'x') != frozenset(xt) or fdl.get_tags(cfg, 'y') != frozenset(yt):
+    return False
+  if tagging.list_tags(cfg) != frozenset(xt | yt):
+    return False
+  sigs.reset_log()
+  direct = fn(v)
+  sigs.reset_log()
+  if fdl.build(cfg) != direct:
+    return False
+  before = _snapshot(cfg)
+  tagging.set_tagged(cfg, tag=TAGS[q], value=v + 7)
+  return _check_set(cfg, before, TAGS[q], v + 7)
+
+
 def obligations(tier, seed):
   assert _json_stub_ok(), 'jsonify stub disagrees with json.dumps/json.loads'
   cubes = []
@@ -482,6 +547,8 @@ def obligations(tier, seed):
                                dict(kind=0, how=0, w=0, q=0, v=4)]),
       Obligation('c14_annot', c14_annot, acubes, timeout=120, path_timeout=40, smoke=dict(ctor=0, g=4, q=0, tr=1, v=4),
                  extra_smokes=[dict(ctor=c, g=5, q=1, tr=c + 1, v=4) for c in range(4)] + [dict(ctor=0, g=4, q=0, tr=5, v=4)]),
+      Obligation('c14_with_tags', c14_with_tags, [Cube(f'f{f}', [], dict(form=f)) for f in range(6)], timeout=120, path_timeout=40,
+                 smoke=dict(form=3, q=3, v=4), extra_smokes=[dict(form=f, q=f % 4, v=4) for f in range(6)]),
       Obligation('c14_diff_positional', c14_diff_positional, [Cube(f's{s}', [], dict(site=s)) for s in (0, 1)],
                  timeout=60, path_timeout=40, smoke=None),
   ]
